@@ -158,7 +158,10 @@ def run(ctx: Ctx) -> None:
     for st, acc in G.accepts.items():
         accept_sets.setdefault(tuple(acc), st)
     alpha = ["a", " ", "*", "/", "\n", "#", '"', "1"]
-    bodies = [""] + ["".join(c) for n_ in (1, 2, 3) for c in itertools.product(alpha, repeat=n_)]
+    lens = (1, 2, 3, 4) if ctx.tier == "thorough" else (1, 2, 3)
+    if ctx.tier == "thorough":
+        alpha = alpha + ["'", "E", "\t"]
+    bodies = [""] + ["".join(c) for n_ in lens for c in itertools.product(alpha, repeat=n_)]
     bodies += ["note", "note ", " note", "TODO: check this", "* banner *", "\n multi\n line\n", "END", "'quoted'", "[x] = 1", "a /* nested"]
     nc = nh = 0
     bad_c: dict = {}
